@@ -58,7 +58,8 @@ ASSUMPTIONS = ["CPython str slicing semantics; `re` on the word patterns == maxi
                "and caseless symbols there); theorems hold for every callback"]
 PARTIAL_SCOPE = ["gq (reshape_text), ~ as operator, motions ge gE g_ | % { } ap ; , n N H M L gm: end-to-end oracle only (not in the Lean model)",
                  "visual-mode operators (_operator_in_selection) and BLOCK selections not modelled",
-                 "register names outside [a-z0-9] are followed by the model but not judged by the oracle",
+                 "register names outside [a-z0-9] (e.g. \"Ad: the deleted text is stored nowhere) are followed by the model but not judged by the oracle",
+                 "the cursor position after y / case operators (not part of the property) is compared with the model only",
                  "dd / cc / yy / D / C / x are separate bindings, not operator+motion (C09)"]
 
 ALPHA = ["a", "B", " ", "\n", "(", ")"]
